@@ -382,3 +382,39 @@ func TestVerifWitness_D12(t *testing.T) {
 		t.Fatalf("local row 0 = %v, want [7]", got)
 	}
 }
+
+// TestVerifWitness_DX1: three replicas all hold (100,0) (block 1) and differ in block 0. Merging block 0
+// must not look at row 100: limitIterator's bounds are inclusive and mergeBlock passed (id+1)*HashBlockSize,
+// so (100,0) got 1 of 3 votes (remote block data never contains it) and was cleared locally.
+func TestVerifWitness_DX1(t *testing.T) {
+	f := mustOpenFragment("i", "f", viewStandard, 0, "")
+	defer f.Clean(t)
+	f.mustSetBits(0, 1)
+	f.mustSetBits(HashBlockSize, 0)
+	sets, clears, err := f.mergeBlock(0, []pairSet{{}, {}})
+	if err != nil {
+		t.Fatal(err)
+	}
+	if got := f.row(HashBlockSize).Columns(); fmt.Sprint(got) != "[0]" {
+		t.Fatalf("merging block 0 changed row %d (block 1) to %v, want [0]", HashBlockSize, got)
+	}
+	if got := f.row(0).Columns(); len(got) != 0 {
+		t.Fatalf("row 0 = %v, want [] (1 of 3 votes)", got)
+	}
+	for i := range sets {
+		if len(sets[i].rowIDs) != 0 || len(clears[i].rowIDs) != 0 {
+			t.Fatalf("remote %d holds the majority of block 0 but gets sets %v clears %v", i, sets[i], clears[i])
+		}
+	}
+	// two replicas: the row of block 1 must not be sent as a repair of block 0
+	g := mustOpenFragment("i", "f", viewStandard, 0, "")
+	defer g.Clean(t)
+	g.mustSetBits(HashBlockSize, 0)
+	sets, _, err = g.mergeBlock(0, []pairSet{{}})
+	if err != nil {
+		t.Fatal(err)
+	}
+	if len(sets[0].rowIDs) != 0 {
+		t.Fatalf("block 0 repair for the remote contains rows %v of another block", sets[0].rowIDs)
+	}
+}
